@@ -549,6 +549,14 @@ def signal_name(rc):
     return str(rc)
 
 
+_T0 = time.time()
+
+
+def log(msg):
+    if os.environ.get('VERIF_DEBUG'):
+        print(f'[{time.time() - _T0:7.1f}s] {msg}', file=sys.stderr, flush=True)
+
+
 def tier_seed(argv=None):
     import argparse
     ap = argparse.ArgumentParser()
